@@ -73,6 +73,25 @@ fn path_in_message(msg: &str) -> Option<String> {
     None
 }
 
+/// every back-ticked name in the message is accounted for: the path, the received name, the accepted
+/// alternatives, the suggestion — nothing else (e.g. alternatives of another type)
+fn no_foreign_names(msg: &str, received: &str, accepted: &[String], paths: &[String], out: &mut Vec<(&'static str, String)>) {
+    if received.contains('`') || accepted.iter().any(|a| a.contains('`')) || paths.iter().any(|p| p.contains('`')) {
+        return;
+    }
+    let parts: Vec<&str> = msg.split('`').collect();
+    if parts.len() % 2 == 0 {
+        return; // unbalanced back-ticks: a quoted value contains one
+    }
+    for tok in parts.iter().skip(1).step_by(2) {
+        let known = *tok == received || accepted.iter().any(|a| a == tok) || paths.iter().any(|p| p == tok);
+        if !known {
+            out.push(("message-lists-a-name-that-is-not-an-alternative", format!("`{tok}` is neither the received name, nor an accepted alternative, nor the path")));
+            return;
+        }
+    }
+}
+
 fn alternatives(msg: &str, received: &str, accepted: &[String], out: &mut Vec<(&'static str, String)>) {
     if !msg.contains(&format!("`{received}`")) {
         out.push(("message-does-not-quote-the-unknown-name", format!("`{received}` not in message")));
@@ -125,8 +144,14 @@ fn check_json(msg: &str, r0: &Report, p: &Ov) -> Vec<(&'static str, String)> {
                 out.push(("missing-field-not-named", format!("field `{field}`")));
             }
         }
-        RKind::UnknownKey { key, accepted } => alternatives(msg, key, accepted, &mut out),
-        RKind::UnknownValue { value, accepted } => alternatives(msg, value, accepted, &mut out),
+        RKind::UnknownKey { key, accepted } => {
+            alternatives(msg, key, accepted, &mut out);
+            no_foreign_names(msg, key, accepted, &[path.clone()], &mut out);
+        }
+        RKind::UnknownValue { value, accepted } => {
+            alternatives(msg, value, accepted, &mut out);
+            no_foreign_names(msg, value, accepted, &[path.clone()], &mut out);
+        }
         RKind::BadLen { actual, expected, .. } => {
             let len = if let Ov::Seq(v) = actual { v.len() } else { 0 };
             if !msg.contains(&len.to_string()) || !msg.contains(&expected.to_string()) {
@@ -194,8 +219,14 @@ fn check_qp(msg: &str, r0: &Report) -> Vec<(&'static str, String)> {
                 out.push(("missing-field-not-named", format!("field `{field}`")));
             }
         }
-        RKind::UnknownKey { key, accepted } => alternatives(msg, key, accepted, &mut out),
-        RKind::UnknownValue { value, accepted } => alternatives(msg, value, accepted, &mut out),
+        RKind::UnknownKey { key, accepted } => {
+            alternatives(msg, key, accepted, &mut out);
+            no_foreign_names(msg, key, accepted, &[path.clone()], &mut out);
+        }
+        RKind::UnknownValue { value, accepted } => {
+            alternatives(msg, value, accepted, &mut out);
+            no_foreign_names(msg, value, accepted, &[path.clone()], &mut out);
+        }
         RKind::BadLen { actual, expected, .. } => {
             let len = if let Ov::Seq(v) = actual { v.len() } else { 0 };
             if !msg.contains(&len.to_string()) || !msg.contains(&expected.to_string()) {
